@@ -139,3 +139,117 @@ def forward_rule(ctx, rule: str, param: str) -> None:
                           f"value bound to `{param}` is `{norm(actual)}`, which is not derived from the caller's `{param}`")
     ctx.floor(rule, len(eps), 5, f"entry points with `{param}`")
     ctx.floor(rule, n_calls, 7, f"delegating calls binding `{param}`")
+
+
+# ----------------------------------------------------------------------------- generic same-name forwarding (FORWARD, package-wide)
+PROPERTY_MODULES = {
+    "C01": ("formulaic.formula", "formulaic.parser"),
+    "C02": ("formulaic.materializers", "formulaic.utils.cast"),
+    "C04": ("formulaic.utils.stateful_transforms", "formulaic.transforms.scale", "formulaic.transforms.poly", "formulaic.transforms.basis_spline",
+            "formulaic.transforms.cubic_spline", "formulaic.transforms.patsy_compat", "formulaic.materializers.types.scoped_term"),
+    "C05": ("formulaic.model_spec", "formulaic.sugar", "formulaic.materializers"),
+    "C06": ("formulaic.utils.null_handling", "formulaic.materializers", "formulaic.transforms.hashed"),
+    "C10": ("formulaic.model_spec",),
+    "C11": ("formulaic.transforms.contrasts", "formulaic.utils.sparse"),
+    "C13": ("formulaic.transforms.scale", "formulaic.transforms.poly", "formulaic.transforms.patsy_compat", "formulaic.utils.stateful_transforms"),
+    "C14": ("formulaic.parser", "formulaic.utils.code", "formulaic.utils.iterators"),
+    "C16": ("formulaic.utils.constraints",),
+    "C17": ("formulaic.utils.variables", "formulaic.utils.code", "formulaic.utils.layered_mapping"),
+    "C19": ("formulaic.utils.structured", "formulaic.utils.layered_mapping", "formulaic.formula"),
+    "C20": ("formulaic.utils.calculus", "formulaic.formula", "formulaic.model_spec"),
+}
+
+# (caller qualname suffix, callee name, parameter) -> reason the caller legitimately does not forward its same-named value
+FORWARD_EXEMPT = {
+    ("formula._FormulaMeta.__call__", "__init__", "_ordering"): "Formula() with no arguments builds the empty SimpleFormula([]) (nothing to order yet)",
+    ("formula._FormulaMeta.__call__", "__init__", "_parser"): "empty formula: nothing to parse",
+    ("formula._FormulaMeta.__call__", "__init__", "_nested_parser"): "empty formula: nothing to parse",
+    ("formula._FormulaMeta.__call__", "__init__", "_context"): "empty formula: nothing to parse",
+    ("transforms.contrasts.encode_contrasts", "categorical_encode_series_to_sparse_csc_matrix", "levels"): "the series passed is already a Categorical pinned to `levels`",
+    ("utils.layered_mapping.LayeredMapping.get_with_layer_name", "get_with_layer_name", "default"): "the nested call is guarded by `key in layer`: the default cannot be needed",
+    ("utils.structured.Structured._simplify.<locals>.simplify_obj", "_simplify", "unwrap"): "nested structures are always unwrapped; `unwrap` only concerns the outermost container",
+    ("utils.structured.Structured._simplify.<locals>.simplify_obj", "_simplify", "inplace"): "nested structures are simplified into new objects; `inplace` only concerns the outermost container",
+}
+
+
+def generic_forwarding(ctx, rule: str, modules):
+    """When a function calls a package function that has a formal parameter with the SAME NAME as one of the caller's own
+    parameters (or of an enclosing function), the call must bind that formal (positionally, by keyword or through */** expansion):
+    silently falling back to the callee's default loses the caller's option.  Frozen exemptions carry their reasons."""
+    P = ctx.project
+    SKIP = {"self", "cls", "args", "kwargs"}
+    n_calls = n_formals = 0
+    for f in sorted(P.functions.values(), key=lambda x: x.qualname):
+        if isinstance(f.node, ast.Lambda) or not f.module.name.startswith(tuple(modules)):
+            continue
+        avail, g = set(), f
+        while g is not None:
+            avail |= {p.lstrip("*") for p in param_names(g.node)}
+            g = g.parent
+        avail -= SKIP
+        deco = {id(x) for d in getattr(f.node, "decorator_list", []) for x in ast.walk(d)}
+        from ..core import walk_no_nested
+        for c in walk_no_nested(f.node):
+            if not isinstance(c, ast.Call) or id(c) in deco:
+                continue
+            callee = _unique_callee(P, f, c)
+            if callee is None:
+                continue
+            n_calls += 1
+            pos = [p for p in param_names(callee.node) if not p.startswith("*")]
+            if pos and pos[0] in ("self", "cls") and (isinstance(c.func, ast.Attribute) or callee.name in ("__init__", "__new__")):
+                pos = pos[1:]
+            if any(k.arg is None for k in c.keywords) or any(isinstance(a, ast.Starred) for a in c.args):
+                continue
+            bound = {k.arg for k in c.keywords if k.arg} | {pos[i] for i in range(min(len(pos), len(c.args)))}
+            for p in [x for x in param_names(callee.node) if not x.startswith("*") and x not in SKIP]:
+                if p in avail and p not in bound:
+                    n_formals += 1
+                    ctx.look()
+                    ex = [why for (cs, cn, pp), why in FORWARD_EXEMPT.items() if f.qualname.endswith(cs) and callee.name == cn and pp == p]
+                    inst = f"{f.qualname.replace('formulaic.', '')} -> {callee.name}(...): caller's `{p}` is forwarded"
+                    if ex:
+                        ctx.ok(rule, inst + f" [exempt: {ex[0]}]", f.module.line(c), trivial=True)
+                    else:
+                        ctx.fail(rule, inst, f.module.line(c), ctx.construct(f, text=f"{callee.name}(… {p} not forwarded): {norm(c)[:70]}"),
+                                 f"`{norm(c)[:90]}` does not pass `{p}` although the caller has a `{p}` of its own and `{callee.name}` takes one: the callee silently uses "
+                                 f"its default instead of the caller's value")
+    ctx.notes.append(f"{rule}: {n_calls} resolved intra-package calls inspected, {n_formals} same-name formals left unbound (all exempt) in {list(modules)}")
+    ctx.ok(rule, f"same-name parameters are forwarded at all {n_calls} resolved call sites of {', '.join(m.replace('formulaic.', '') for m in modules)}", "formulaic/")
+
+
+def _unique_callee(P: Project, f: FunctionInfo, c: ast.Call) -> Optional[FunctionInfo]:
+    q = P.resolve_in(f, c.func)
+    if q in P.functions:
+        return P.functions[q]
+    if q in P.classes:
+        for k in P.mro(q):
+            for nm in ("__init__", "__new__"):
+                if nm in k.methods:
+                    return k.methods[nm]
+        return None
+    if isinstance(c.func, ast.Attribute):
+        name = c.func.attr
+        recv = c.func.value
+        owner = f.cls
+        p = f
+        while owner is None and p is not None:
+            p = p.parent
+            owner = p.cls if p is not None else None
+        if isinstance(recv, ast.Name) and recv.id in ("self", "cls") and owner is not None:
+            for k in P.mro(owner.qualname):
+                if name in k.methods:
+                    return k.methods[name]
+            return None
+        head = recv
+        while isinstance(head, ast.Attribute):
+            head = head.value
+        if isinstance(head, ast.Name) and head.id in f.module.imports and not f.module.imports[head.id].startswith(P.PKG) and not f.module.imports[head.id].startswith("."):
+            return None  # a third-party / stdlib module function (numpy.x, ast.parse, …)
+        if isinstance(recv, ast.Name) and recv.id in ("str", "dict", "list", "set", "tuple", "object", "super"):
+            return None
+        cands = [m for k in P.classes.values() for n_, m in k.methods.items() if n_ == name]
+        sigs = {tuple(param_names(m.node)) for m in cands}
+        if cands and len(sigs) == 1:
+            return cands[0]
+    return None
